@@ -554,12 +554,22 @@ func (e *env) loss(round int) (inflight []*op) {
 	case "big-write":
 		pipe.CutAfter(fwd.C2S, int64(sc.K)<<10, sc.RST)
 		inflight = append(inflight, e.start("blob", "inflight"))
+	case "big-stall":
+		// the reader sees an orderly end of stream while the writer is blocked in the middle of a large frame
+		pipe.StallAfter(int64(sc.K) << 10)
+		inflight = append(inflight, e.start("blob", "inflight"))
 	}
 	select {
 	case <-pipe.Done():
 	case <-time.After(gateWait):
 		e.inconclusive("the fault did not trigger (frame shorter than the cut offset?)")
 		return
+	}
+	if sc.Base == "big-stall" {
+		// the reader has seen the end of stream and runs readDisconnected while the writer is still
+		// blocked in its write; then the reset that a vanished peer sends for further data arrives
+		quiesce.Wait(quiesce.Options{Samples: 3, Interval: 10 * time.Millisecond, Timeout: 10 * time.Second})
+		pipe.Reset()
 	}
 
 	// gate script: choreography
@@ -924,8 +934,22 @@ func (e *env) judgeHooks() {
 func (e *env) gateSig() (string, int) {
 	var b strings.Builder
 	n := 0
+	hits := gates.Hits()
+	first, last := -1, -1
+	for i, h := range hits {
+		if e.isClient(h.Sess) && (strings.HasPrefix(h.Point, "rd.") || strings.HasPrefix(h.Point, "redial")) {
+			if first < 0 {
+				first = i
+			}
+			last = i
+		}
+	}
+	if first < 0 {
+		return "", 0
+	}
+	hits = hits[first : last+1]
 	short := map[string]string{"rd.": "r", "redial.": "d", "redialfn.": "f", "asynccall.": "a", "push.": "p", "write.": "w"}
-	for _, h := range gates.Hits() {
+	for _, h := range hits {
 		if !e.isClient(h.Sess) {
 			continue
 		}
